@@ -1965,7 +1965,12 @@ fn generate_packet_view(
         }
     }
 
-    if decl.fields().next().is_some() {
+    // A declaration without fields still has to check that nothing is left, unless its parent
+    // has no payload to look at.
+    let has_span = decl.fields().next().is_some()
+        || parent_id.is_none()
+        || scope.get_parent(decl).is_some_and(|p| p.payload().is_some());
+    if has_span {
         field_parsers.push("// Parse packet field values.".to_string());
         let span = if parent_id.is_some() { "parent.payload_" } else { "parent" };
         field_parsers.push(format!("pdl::packet::slice span = {};", span));
@@ -1977,11 +1982,11 @@ fn generate_packet_view(
         }
         parser.done();
         field_parsers.extend(parser.code);
-    }
 
-    field_parsers.push("if (span.size() > 0) {".to_string());
-    field_parsers.push("    return false;".to_string());
-    field_parsers.push("}".to_string());
+        field_parsers.push("if (span.size() > 0) {".to_string());
+        field_parsers.push("    return false;".to_string());
+        field_parsers.push("}".to_string());
+    }
     field_parsers.push("return true;".to_string());
 
     let friend_classes = scope
